@@ -118,8 +118,22 @@ impl Case15 {
                 let cost_kind = if *cost == CostKind::CrossEntropy && !positive_out { CostKind::Mse } else { *cost };
                 let cf = make_cost(cost_kind);
                 let gd = GradientDescent::new(0.0);
+                // every second stack is evaluated with all parameters frozen (tracking off), as a pre-trained model would be
+                let frozen = (*pseed ^ *xseed) % 2 == 1;
+                if frozen {
+                    for l in layers.iter_mut() {
+                        for p in l.parameters() {
+                            p.stop_tracking();
+                        }
+                    }
+                }
                 let refs: Vec<&mut dyn Layer> = layers.iter_mut().map(|b| &mut **b as &mut dyn Layer).collect();
                 let mut model = Model::new(refs, &gd, &cf);
+                // an earlier forward pass on another input must not influence what follows
+                let other = gen_vals(xseed ^ 0x5151, numel(&xd), kind);
+                if let Err(p) = guarded(|| drop(model.forward(arr(&xd, &other)))) {
+                    return e("unexpected-panic:model-forward", format!("Model::forward panicked: {}", p));
+                }
                 let out = match guarded(|| model.forward(arr(&xd, &xv))) {
                     Ok(o) => o,
                     Err(p) => return e("unexpected-panic:model-forward", format!("Model::forward panicked: {}", p)),
@@ -134,7 +148,7 @@ impl Case15 {
                     Err(p) => return e("unexpected-panic:model-backward", format!("Model::backward panicked (stack {:?}, input dims {:?}, cost {:?}): {}", specs, xd, cost_kind, p)),
                 };
                 if !close(loss, want.v, want.vm, false) {
-                    return e("loss-value", format!("Model::backward returned {:?}, expected sum(cost) = {:?} (stack {:?}, input dims {:?}, output dims {:?}, cost {:?})", loss, want.v, specs, xd, cur_ref.dims, cost_kind));
+                    return e("loss-value", format!("Model::backward returned {:?}, expected sum(cost) = {:?} for the LAST forward pass (stack {:?}, input dims {:?}, output dims {:?}, cost {:?}, parameters frozen: {}; an earlier forward on another input ran before)", loss, want.v, specs, xd, cur_ref.dims, cost_kind, frozen));
                 }
                 Ok(*batch > 1 || specs.len() >= 2 || specs.iter().any(|s| matches!(s, LayerSpec::Dense { act, .. } | LayerSpec::Conv { act, .. } if *act != Act::None)))
             }
